@@ -2725,6 +2725,11 @@ def atlas_scenarios(rng, big):
                 ["zeta.example.net:27017", "alpha.example.net:27017", "mid.example.net:27018"], ["same.example.net:27017", "same.example.net:27018"]]
     for hs in hostsets if big else hostsets[:4]:
         plains = [atlas_payload(rng, i, [0, 1, 2, 7, 40][rng.below(5)]) for i in range(len(hs))]
+        # hosts that differ in the port only are ONE host to the API (the log request names the host without its port):
+        # the fake service can only hold one log for them
+        first = {}
+        for i, h in enumerate(hs):
+            plains[i] = plains[first.setdefault(h.split(":")[0], i)]
         scs.append((hs, plains))
     return scs
 
